@@ -6,8 +6,9 @@ from .. import schema_harness as H
 from .. import translate_schema as TS
 
 PROP = "C01"
-COQ_EXTRA = ["theories/Model/ConvertCases.vo", "theories/Model/RoundTripCases.vo", "theories/Gen/SchemaS.vo"]
+COQ_EXTRA = ["theories/Model/ConvertCases.vo", "theories/Model/RoundTripCases.vo", "theories/Model/TypedCases.vo", "theories/Gen/TypedGen.vo", "theories/Gen/SchemaS.vo"]
 IMPORTS = ["Model.Schema", "Model.Convert", "Model.ConvertCases", "Model.RoundTripCases", "Gen.SchemaGen", "Gen.SchemaS"]
+TIMPORTS = ["Model.Schema", "Model.Convert", "Model.Scalars", "Model.PyDecimal", "Model.Typed", "Model.ConvertCases", "Model.TypedCases", "Gen.SchemaGen", "Gen.SchemaS", "Gen.TypedGen"]
 PARTIAL = ["proved: the tree-level round trip (roundtrip_tree, RoundTrip1-6) and its composition with the wire theorem of the Sgml/Serialize engine (wire_roundtrip_closed / "
            "wire_roundtrip_unclosed: to_etree -> serializer text -> tokenizer + tree builder -> from_etree returns the same instance, plain and pretty-printed); the hypothesis "
            "conv (escape (unconv v)) = Some v on element values is C09/C10's subject; the header + byte encoding around the body (C05/C12) is not restated inside these theorems: "
@@ -92,6 +93,102 @@ def ctx_conv_by_eid(ctx, eid):
     return _CONV.get(eid)
 
 
+# ---- typed encoding: real values, no handles (date-times as instants) ----
+import datetime as _dt, decimal as _dec
+_EPOCH = _dt.datetime(1970, 1, 1, tzinfo=_dt.timezone.utc)
+
+
+def cZ(n):
+    return "(%d)%%Z" % n
+
+
+def enc_pyval(v):
+    if v is None: return "PNone"
+    if isinstance(v, bool): return "PBool %s" % C.cbool(v)
+    if isinstance(v, int): return "PInt %s" % cZ(v)
+    if isinstance(v, str): return "PStr %s" % C.ctext(v)
+    if isinstance(v, _dec.Decimal):
+        sign, digits, exp = v.as_tuple()
+        if not isinstance(exp, int): raise ValueError("special decimal held by an instance")
+        return "PDec (Fin %s %d %s)" % (C.cbool(bool(sign)), int("".join(map(str, digits)) or "0"), cZ(exp))
+    if isinstance(v, _dt.datetime):
+        d = v - _EPOCH
+        return "PDT %s" % cZ((d.days * 86400 + d.seconds) * 10 ** 6 + d.microseconds)
+    if isinstance(v, _dt.time):
+        us = ((v.hour * 60 + v.minute) * 60 + v.second) * 10 ** 6 + v.microsecond - int(v.utcoffset().total_seconds()) * 10 ** 6
+        return "PTime %s" % cZ(us % (86400 * 10 ** 6))
+    raise ValueError("unencodable value %r" % (v,))
+
+
+def enc_pinst(ctx, obj, udt=None):
+    T = ctx.Types
+    cls = type(obj)
+    fields = []
+    for k, t in H.spec_no_list(ctx, cls):
+        v = None if isinstance(t, T.Unsupported) else obj.__dict__.get(k)
+        if v is None:
+            fields.append("(%s,FNone _)" % H.cs(k))
+        elif isinstance(v, ctx.Aggregate):
+            fields.append("(%s,FSub _ %s)" % (H.cs(k), enc_pinst(ctx, v, udt)))
+        else:
+            if udt is not None and type(t) in (T.DateTime, T.Time):
+                udt[(type(t) is T.Time, enc_pyval(v))] = H.outcome(t.unconvert, v)
+            fields.append("(%s,FVal _ (%s))" % (H.cs(k), enc_pyval(v)))
+    mems = []
+    le = [t for k, t in cls.spec.items() if isinstance(t, T.ListElement)]
+    for m in obj:
+        if isinstance(m, ctx.Aggregate):
+            mems.append("MAgg _ %s" % enc_pinst(ctx, m, udt))
+        elif isinstance(obj, ctx.ElementList):
+            if udt is not None and le and type(le[0].converter) in (T.DateTime, T.Time) and m is not None:
+                udt[(type(le[0].converter) is T.Time, enc_pyval(m))] = H.outcome(le[0].unconvert, m)
+            mems.append("MVal _ %s" % ("None" if m is None else "(Some (%s))" % enc_pyval(m)))
+        else:
+            mems.append("MStr _ %s" % C.ctext(m))
+    return "(Inst _ %s [%s] [%s])" % (H.cs(cls.__name__), ";".join(fields), ";".join(mems))
+
+
+def dt_table_for_tree(ctx, e, tb):
+    """(is_time, text) -> what the REAL DateTime/Time converter makes of it, for every date-time child met as from_etree walks"""
+    T = ctx.Types
+    cls = getattr(ctx.M, e.tag, None)
+    if not (isinstance(cls, type) and issubclass(cls, ctx.Aggregate)):
+        return
+    for ch in e:
+        t = cls.spec.get(ch.tag.lower())
+        if t is None:
+            continue
+        conv = t.converter if isinstance(t, T.ListElement) else t
+        if ch.text and type(conv) in (T.DateTime, T.Time):
+            tb[(type(conv) is T.Time, ch.text)] = H.outcome(conv.convert, ch.text)
+        elif not ch.text:
+            dt_table_for_tree(ctx, ch, tb)
+
+
+def enc_res_pyval(out):
+    if out[0] == "ok":
+        return "OK %s" % ("None" if out[1] is None else "(Some (%s))" % enc_pyval(out[1]))
+    return "Err Reject" if out[0] == "reject" else "Err Crash"
+
+
+def typed_cases(ctx, obj, tree, back, wtags):
+    """TTo: the typed model writes the real instance; TFrom: the typed model reads the tree the library wrote"""
+    out = []
+    try:
+        udt = {}
+        enc = enc_pinst(ctx, obj, udt)
+        utb = "[" + ";".join("(%s,%s,%s)" % (C.cbool(k[0]), k[1], H.enc_result(o, C.ctext)) for k, o in udt.items()) + "]"
+        out.append("TTo %s %s (OK %s)" % (utb, enc, H.enc_etree(tree)))
+        tb = {}
+        dt_table_for_tree(ctx, tree, tb)
+        ttb = "[" + ";".join("(%s,%s,%s)" % (C.cbool(k[0]), C.ctext(k[1]), enc_res_pyval(o)) for k, o in tb.items()) + "]"
+        exp = H.enc_result(back, lambda i: "(%s,[%s])" % (enc_pinst(ctx, i), ";".join(H.cs(t) for t in wtags)))
+        out.append("TFrom %s %s (%s)" % (ttb, H.enc_etree(tree), exp))
+    except ValueError:
+        pass
+    return out
+
+
 def run(rep, tier, rng):
     from ofxtools.Client import OFXClient
     from ofxtools.Parser import OFXTree
@@ -102,6 +199,7 @@ def run(rep, tier, rng):
     per_class = 4 if tier == "thorough" else 1
     items, meta = [], []
     titems, tmeta = [], []
+    yitems, ymeta = [], []
     dist = {}
     for cls in ctx.concrete:
         for _ in range(per_class):
@@ -120,6 +218,9 @@ def run(rep, tier, rng):
             enc, tb, utb = rcase(ctx, obj)
             items.append("RCase %s %s %s %s %s" % (H.enc_conv_table(ctx, tb), H.enc_unconv_table(ctx, utb), enc, C.cbool(not excluded), C.cbool(tree_ok)))
             meta.append({"class": cls.__name__, "expected_in_domain": not excluded, "implementation_tree_roundtrip": tree_ok})
+            if cls.__name__.lower() not in ("rmxz",):
+                for tc in typed_cases(ctx, obj, tree, back, wtags):
+                    yitems.append(tc); ymeta.append({"class": cls.__name__, "what": "typed " + tc[:5]})
             c1, o1 = H.case_to(ctx, obj); titems.append(c1); tmeta.append({"class": cls.__name__, "what": "to_etree"})
             c2, o2, _ = H.case_from(ctx, tree); titems.append(c2); tmeta.append({"class": cls.__name__, "what": "from_etree"})
             if not tree_ok:
@@ -176,7 +277,11 @@ def run(rep, tier, rng):
     bad = C.coq_bad_indices(PROP, "tree", IMPORTS, "ccase_ok S", "ccase", titems, shard=150, prelude="Local Open Scope string_scope.")
     for i in bad[:30]:
         rep.disagreements.append(dict(tmeta[i], case=titems[i][:1500]))
-    rep.evaluations += len(items) + len(titems)
+    bad = C.coq_bad_indices(PROP, "typed", TIMPORTS, "tcase_ok ety_table S", "tcase", yitems, shard=150, prelude="Local Open Scope string_scope.")
+    for i in bad[:30]:
+        rep.disagreements.append(dict(ymeta[i], case=yitems[i][:1500]))
+    rep.extra["typed_model_cases"] = len(yitems)
+    rep.evaluations += len(items) + len(titems) + len(yitems)
 
 
 def replay(obj):
